@@ -58,6 +58,8 @@ def case_strategy(draw):
         'cache_mb': draw(st.sampled_from([1, 2048])),
         # an explicit list may name stores that live in different directories
         'spread': naming == 'explicit' and draw(st.booleans()),
+        # the associated parts come from another chunking of the same sequence (same number of parts, other sizes)
+        'rechunk': layout == 'assoc' and draw(st.booleans()),
     }
 
 
@@ -144,6 +146,30 @@ def body(ctx: core.Ctx, case: dict):
             assoc_out = None
             if layout == 'assoc':
                 assoc_out = d / 'merged_assoc.aeic-store'
+                alt_sizes = sizes[::-1]
+                if case.get('rechunk') and alt_sizes != sizes and min(sizes) > 0:
+                    # same trajectories in the same overall order, cut at other places: positions inside the
+                    # associated merged store have to be looked up in its own size index
+                    (d / 'alt').mkdir()
+                    alt, at = [], 0
+                    try:
+                        for k, n_k in enumerate(alt_sizes):
+                            ap = d / 'alt' / f'A_alt{k}.nc'
+                            with TS.create(base_file=d / 'alt' / f'altbase{k}.nc',
+                                           associated_files=[(ap, [sc.fs_name(BULK)])]) as s_alt:
+                                for t in model[at:at + n_k]:
+                                    s_alt.add(sc.build_traj(t, fdefs))
+                            at += n_k
+                            alt.append(ap)
+                    except core.PASS_THROUGH:
+                        raise
+                    except ValueError:
+                        # a part whose first trajectory carries fewer species than a later one cannot be written
+                        # (the first addition fixes the species of a file): keep the original parts
+                        alt = None
+                    if alt:
+                        assocs = alt
+                        labels.add('assoc_parts_cut_differently')
                 TS.merge(output_store=assoc_out, input_stores=assocs)
             store = TS.open(base_file=out, associated_files=[assoc_out] if assoc_out else None,
                             cache_size_mb=case['cache_mb'])
